@@ -424,8 +424,27 @@ func (e *env) expLike(ti *tinfo, name string, ops []operand) {
 			}
 		}
 	}
+	// the exponent objects are used again for every base: an implementation that keeps a reference to the caller's
+	// *big.Int (a scratch pool, a cache) and writes through it during a later call changes them behind the caller
+	pristine := make([]*big.Int, len(exps))
+	for i, k := range exps {
+		pristine[i] = new(big.Int).Set(k)
+	}
+	defer func() {
+		for i, k := range exps {
+			c.Check(ti.Name+"."+name, e.key(ti, name, "exponent-modified-by-a-later-call"), k.Cmp(pristine[i]) == 0, func() string {
+				return fmt.Sprintf("%s.%s: the *big.Int passed as exponent #%d held %s when it was passed, holds %s after further calls with other exponents", ti.Name, name, i, pristine[i], k)
+			})
+			k.Set(pristine[i])
+		}
+	}()
 	for bi, b := range bases {
 		for ki, k := range exps {
+			if !c.Check(ti.Name+"."+name, e.key(ti, name, "exponent-modified-by-a-later-call"), k.Cmp(pristine[ki]) == 0, func() string {
+				return fmt.Sprintf("%s.%s: the *big.Int passed as exponent #%d held %s when it was passed, holds %s after further calls with other exponents", ti.Name, name, ki, pristine[ki], k)
+			}) {
+				k.Set(pristine[ki])
+			}
 			if ti.Deg >= 12 && !c.Thorough() && (bi+ki)%2 == 1 && ki > 5 && ki < nGeneric {
 				continue
 			}
